@@ -46,6 +46,7 @@ def seeded_functions():
 SEEDED = seeded_functions()
 P = st.sampled_from([0.05, 0.3, 0.7])
 PB = st.sampled_from([0.0, 0.05, 0.3, 0.7, 1.0])  # with the boundary values
+TINY = st.sampled_from([2e-9, 5e-9, 9e-9])  # with 1500-3000 nodes and 3-node edges: a few to a few dozen edges
 Hspec = nets.net_spec(cls="H", kind="int", max_edges=7, max_size=4, min_edges=2, with_attrs=False, allow_empty=False, ids="auto")
 Hspec_any = st.sampled_from(["int", "str", "gap"]).flatmap(
     lambda kd: nets.net_spec(cls="H", kind=kd, max_edges=7, max_size=4, min_edges=2, with_attrs=False, allow_empty=False, ids="auto"))
@@ -58,7 +59,10 @@ def _fd(**kw):
 
 # every documented parameter of every seeded function is drawn, boundary values (0, 1, None, defaults) included
 PARAMS = {
-    "fast_random_hypergraph": _fd(n=st.integers(3, 8), ps=st.lists(PB, min_size=1, max_size=3), order=st.sampled_from([None, None, 1, 2, 3])),
+    # one draw in six: the large sparse regime (wiring probability below 1e-8, thousands of nodes, a handful of edges) - the
+    # skip sampler's numerically delicate end, where an implementation is most tempted to switch to another sampler
+    "fast_random_hypergraph": st.one_of(*[_fd(n=st.integers(3, 8), ps=st.lists(PB, min_size=1, max_size=3), order=st.sampled_from([None, None, 1, 2, 3]))] * 5,
+                                        _fd(n=st.integers(1500, 3000), ps=st.lists(TINY, min_size=1, max_size=1), order=st.just(2))),
     "random_hypergraph": _fd(n=st.integers(3, 8), ps=st.lists(PB, min_size=1, max_size=3), order=st.sampled_from([None, None, 1, 2, 3])),
     "chung_lu_hypergraph": _fd(k=st.lists(st.integers(1, 3), min_size=3, max_size=6)),
     "dcsbm_hypergraph": _fd(k=st.lists(st.integers(1, 3), min_size=4, max_size=6), mix=st.sampled_from([0.0, 0.5, 1.0])),
@@ -67,7 +71,8 @@ PARAMS = {
     "uniform_HSBM": _fd(m=st.integers(2, 3), p_in=PB, p_out=PB, sizes=st.sampled_from([[3, 3], [2, 4], [1, 5], [2, 2, 2]])),
     "uniform_HPPM": _fd(n=st.sampled_from([6, 8]), m=st.integers(2, 3), k=st.sampled_from([1, 2, 4]), epsilon=st.sampled_from([0, 0.0, 0.3, 0.8, 1, 1.0]),
                         rho=st.sampled_from([None, 0.5, 0.25, 0.75])),
-    "uniform_erdos_renyi_hypergraph": _fd(n=st.integers(4, 8), m=st.integers(2, 3), p=PB, multiedges=st.booleans(), p_type=st.sampled_from(["prob", "prob", "degree"])),
+    "uniform_erdos_renyi_hypergraph": st.one_of(*[_fd(n=st.integers(4, 8), m=st.integers(2, 3), p=PB, multiedges=st.booleans(), p_type=st.sampled_from(["prob", "prob", "degree"]))] * 5,
+                                                _fd(n=st.integers(1500, 3000), m=st.just(3), p=TINY, multiedges=st.booleans(), p_type=st.just("prob"))),
     "random_simplicial_complex": _fd(N=st.integers(4, 7), ps=st.lists(PB, min_size=1, max_size=2)),
     "flag_complex": _fd(gn=st.integers(4, 8), gs=st.integers(0, 50), ps=st.one_of(st.none(), st.lists(st.sampled_from([0.0, 0.3, 0.7, 1.0]), min_size=1, max_size=2)),
                         max_order=st.integers(1, 3)),
